@@ -135,6 +135,18 @@ def insertT (t : Transform K) : List (Transform K) → List (Transform K)
 def orderTransforms (rots transl : List (Transform K)) : List (Transform K) :=
   (rots ++ transl).foldl (fun acc t => insertT t acc) []
 
+/-- is it a `--geo-rotate` -/
+def isRot (t : Transform K) : Bool :=
+  match t.kind with
+  | .rotate => true
+  | .translate => false
+
+/-- what `main` makes of the transformation options of a command line written by `Geo_Container.as_cmdline` (which
+writes `self.transforms` in the order they were applied, rotations and translations mixed): all rotations, then all
+translations, stably sorted by key -/
+def readTransforms (opts : List (Transform K)) : List (Transform K) :=
+  orderTransforms (opts.filter isRot) (opts.filter (fun t => !isRot t))
+
 end Pipeline
 
 section Apply
